@@ -110,6 +110,10 @@ func (x *Exec) verifyFunction(fn *ssa.Function, con *Contract, ifaceCon *Contrac
 	if ifaceCon != nil {
 		active = ifaceCon
 	}
+	x.curReveal = nil
+	if active != nil {
+		x.curReveal = active.Reveal
+	}
 	ctx := x.newSpecCtx(st, nil, fn)
 	ctx.bindParams(fn, argT)
 	bindIface(ctx)
@@ -237,6 +241,7 @@ func (x *Exec) refinementTargets(fn *ssa.Function) []*Contract {
 // (with `induct n`: base n=0 is part of the goal; the hypothesis for n-1 is assumed).
 func (x *Exec) verifyLemma(l *LemmaDecl) *FuncReport {
 	x.curFn = "lemma." + l.Name
+	x.curReveal = l.Reveal
 	rep := &FuncReport{Key: x.curFn}
 	nobl := len(x.obls)
 	err := catchSpec(func() {
